@@ -226,6 +226,12 @@ func (s *LSpec) Render() map[string]string {
 		}
 		fmt.Fprintf(&b, "package %s\n\n", s.PkgNames[dir])
 		for _, c := range convs {
+			if c.Defect == "syntax" {
+				// an unbalanced brace ABOVE the converter declaration: the parser swallows it
+				fmt.Fprintf(&b, "func brokenSyntax%s() {\n\tif true {\n}\n\n", c.Name)
+			}
+		}
+		for _, c := range convs {
 			s.renderConv(&b, c)
 		}
 		files[key] = b.String()
